@@ -15,7 +15,7 @@ def showTB (b : TB) : String :=
 def sortStrs (l : List String) : List String := (l.toArray.qsort (· < ·)).toList
 
 def step (base : Bool) (st : St) (j : Json) : Except String (St × String) := do
-  let F := if base then Zeno.Base.RateLimiter.facts else Zeno.Gen.RateLimiter.facts
+  let F := Zeno.Model.RateLimiter.Facts.modelled (if base then Zeno.Base.RateLimiter.facts else Zeno.Gen.RateLimiter.facts)
   let op ← str j "op"
   match op with
   | "new" =>
